@@ -176,7 +176,68 @@ def run(prog, an, rep):
     rep.assume('the arithmetic of the counts (set sizes, author-as-leader '
                'increment, unanimity equality) is not evaluated')
     rep.run_rules(prog, an, [gate, formulas, shapes, counted_sets, helpers,
-                             settings_validation, user_identity])
+                             settings_validation, user_identity,
+                             review_summary])
+
+
+def review_summary(prog, an, rep):
+    """GitHub: the current review of a reviewer is their latest review that
+    is not a plain comment -- the COMMENTED reviews are taken out before the
+    latest one per author is chosen.  Taken out afterwards, a comment posted
+    after an approval would hide the approval (and a change request)."""
+    from ..rules import canon, substitute_locals, cond_equiv, parent_map
+    R = 'C04.MPT.review-summary'
+    f = need_func(an, 'bert_e.git_host.github.PullRequest.'
+                  'get_summarized_reviews')
+    pm = parent_map(f.node)
+    sites = []
+    for n in walk_local(f.node, include_root=False):
+        # D[x.author] = x inside `for x in SOURCE`
+        if isinstance(n, ast.Assign) and len(n.targets) == 1 and \
+                isinstance(n.targets[0], ast.Subscript) and \
+                isinstance(n.value, ast.Name):
+            x = n.value.id
+            sl = n.targets[0].slice
+            lp = pm.get(n)
+            while lp is not None and not (
+                    isinstance(lp, ast.For) and
+                    isinstance(lp.target, ast.Name) and lp.target.id == x):
+                lp = pm.get(lp)
+            if lp is not None and isinstance(sl, ast.Attribute) and \
+                    sl.attr == 'author' and src(sl.value) == x:
+                sites.append((n, lp.iter))
+        # SOURCE[-1]
+        if isinstance(n, ast.Subscript) and isinstance(n.ctx, ast.Load) and \
+                isinstance(n.slice, ast.UnaryOp) and \
+                isinstance(n.slice.op, ast.USub) and \
+                isinstance(n.slice.operand, ast.Constant) and \
+                n.slice.operand.value == 1:
+            sites.append((n, n.value))
+    rep.floor('C04 latest-review-per-author selections', len(sites), 1)
+
+    def filtered(e):
+        e = substitute_locals(f, e, depth=6)
+        for x in ast.walk(e):
+            conds = []
+            if isinstance(x, ast.Lambda) and len(x.args.args) == 1:
+                conds.append((x.args.args[0].arg, x.body))
+            if isinstance(x, (ast.ListComp, ast.GeneratorExp, ast.SetComp)):
+                for g in x.generators:
+                    if isinstance(g.target, ast.Name):
+                        for i_ in g.ifs:
+                            conds.append((g.target.id, i_))
+            for v, cnd in conds:
+                if cond_equiv(None, cnd, 'not %s.commented' % v):
+                    return True
+        return False
+    for n, source in sites:
+        rep.evaluated()
+        rep.check(filtered(source), R, f.qname + ': the latest review is '
+                  'chosen among the reviews that are not comments',
+                  f.where(n), 'the latest review per author is chosen from '
+                  '%s, which still holds the COMMENTED reviews: a later '
+                  'comment hides an approval or a change request' %
+                  src(source)[:60])
 
 
 def user_identity(prog, an, rep):
